@@ -419,6 +419,10 @@ func TestC07Matrix(t *testing.T) {
 		"# doc with `backticks` and ``\ninterface a.b\n# `\nmethod M() -> ()\n",
 		"interface a.b\r\n# doc\r\nmethod M(a: int) -> (b: string)\r\nerror E1 (x: int)\r\n",
 		"# mentions fmt.Sprintf, json.RawMessage and context.Context\ninterface a.b\nmethod M() -> ()\n",
+		// comment lines that would be build constraints / directives of the generated file if copied into line comments
+		"# +build ignore\ninterface a.b\nmethod M() -> ()\n",
+		"interface a.b\n\n# +build ignore\n# second line\nmethod M() -> ()\n\n#   +build windows\ntype T (a: int)\n\n#+build js\nerror E (a: int)\n",
+		"# go:build ignore\n# +build */ ignore\ninterface a.b\n# go:generate rm -rf /\nmethod M() -> ()\n",
 		"interface a.b\nmethod M() -> ()\n\n\n",
 		"interface a.b\nmethod Call(send: int) -> (upgrade: int)\nmethod Send() -> ()\nmethod Upgrade() -> ()\nmethod Reply() -> ()\n",
 		"interface a.b\ntype String (s: string)\ntype Context (c: int)\ntype Json (j: object)\nmethod M(s: String, c: Context, j: Json) -> (o: object)\n",
